@@ -21,7 +21,8 @@ def run(tier):
     plan = [("rep2", "repair2", 8), ("rep1", "repair2", 9), ("eq", "repair2", 8), ("range", "repair2", 8),
             ("eq", "mutate", 8)]
     if not q:
-        plan += [("rep1", "mutate", 10), ("rep1", "crossover", 11), ("eq", "crossover", 10), ("rep2", "crossover", 10), ("rep2", "mutate", 12), ("range", "crossover", 10), ("range", "mutate", 10)]
+        # sized on this machine: rep2/mutate with 12 draws = 9195 paths, 33 min; crossover with 10-11 draws did not finish in 30 min
+        plan += [("rep1", "mutate", 10), ("rep1", "crossover", 9), ("eq", "crossover", 8), ("rep2", "crossover", 8), ("rep2", "mutate", 12), ("range", "crossover", 8), ("range", "mutate", 10)]
     first_draws = {"rep2": 4, "rep1": 3, "range": 2}  # number of values of the first draw (the count symbol's alternatives)
     for spec, mode, nch in plan:
         for c0 in range(first_draws.get(spec, 1)) if spec in first_draws else [-1]:
